@@ -57,6 +57,8 @@ def check_pair(P, ver, rep, s, kind="?"):
 
 
 def check_case(P, case):
+    if "pickled_under_hashseed" in case:
+        return  # (needs the producing process: --replay re-runs the shard recorded in the witness)
     check_pair(P, case["ver"], case["rep"], case["spelling"], case.get("kind", "?"))
 
 
@@ -144,6 +146,49 @@ def shard_base_exhaustive(P, ver, part, nparts, shapes, seed):
         P.distinct_n += 1
 
 
+def shard_pickled_twin(P, n, seed, hashseed):
+    """An object built, hashed and pickled in another process (other hash seed), unpickled here, against a twin
+    built HERE from another spelling of the same assignment: equal, same hash, same record."""
+    import base64
+    import os
+    import pickle
+    import random
+    import subprocess
+    import sys
+    from .. import bootstrap
+    from . import C07
+    env = dict(os.environ)
+    env.update({"PYTHONHASHSEED": str(hashseed), "PYTHONDONTWRITEBYTECODE": "1"})
+    p = subprocess.run([sys.executable, "-B", "-c", "from vmon.monitors import C07; C07.pickle_child(%r, %d)" % (seed, n)],
+                       cwd=bootstrap.VERIF, env=env, stdout=subprocess.PIPE, stderr=subprocess.PIPE, timeout=600)
+    if p.returncode != 0:
+        P.notes.append("INCONCLUSIVE:pickle child failed: %s" % p.stderr.decode("utf-8", "replace")[-300:])
+        return
+    L = lib()
+    rng = random.Random("C05-pickled-%s" % seed)
+    for (ver, s), b in zip(C07.pickled_vectors(seed, n), p.stdout.decode("ascii").split("\n")):
+        P.evaluations += 1
+        if b.startswith("!"):
+            P.stratum("pickling-not-supported")
+            continue
+        ok, o = obs.call(lambda: pickle.loads(base64.b64decode(b)))
+        if not ok or type(o) is not L.CLS[ver]:
+            P.stratum("unpickling-not-supported")
+            continue
+        prefix, fields = T.parse(ver, s)
+        s2 = V.spell(prefix, V.nd_variants(ver, dict(fields), rng, 1)[-1], "shuffle", rng)
+        case = {"ver": ver, "rep": s, "spelling": s2, "kind": "order", "pickled_under_hashseed": hashseed}
+        P.ev("unpickled-vs-twin")
+        P.dist(("pickled", ver, s))
+        ok, r = obs.call(lambda: (lambda t: (o == t, t == o, hash(o) == hash(t), len({o, t}), obs.record(ver, o) == obs.record(ver, t)))(L.CLS[ver](s2)))
+        if not ok:
+            P.violation("eq-hash", "C05:v%s:unpickled-object:comparison-raises:%s" % (ver, obs.exc_name(r)), case, error=repr(r))
+        elif r != (True, True, True, 1, True):
+            names = ["equality", "equality", "hash", "hash", "record"]
+            bad = sorted(set(nm for nm, x, w in zip(names, r, (True, True, True, 1, True)) if x != w))
+            P.violation("eq-hash", "C05:v%s:%s-depends-on-spelling:unpickled-from-another-process" % (ver, "+".join(bad)), case, observed=repr(r))
+
+
 def run(R):
     R.rule = RULE
     R.require("record-equal", "eq-hash")
@@ -153,6 +198,7 @@ def run(R):
         R.pmap("shard", [(ver, i, n, R.seed) for i in range(16)])
     for ver in T.VERSIONS:
         R.pmap("shard_base_exhaustive", [(ver, i, 16, R.pick(1, 6), R.seed) for i in range(16)])
+    R.pmap("shard_pickled_twin", [(R.pick(60, 1500), R.seed, hs) for hs in ("12345", "2", "random")])
     for ver in T.VERSIONS:
         got = R.P.extra.get("nd_toggled_alone_v" + ver, set())
         miss = set(T.OPTIONAL[ver]) - got
